@@ -252,6 +252,44 @@ def _reparse_last():
     if last is None or budget <= 0:
         return
     _STATE["last_proc_rp"] = None
+    _STATE["rp_budget"] = budget - 1
+    # The front end's own checks on the reparsed text can sit in one z3 query for a very long time (avx2 sgemm of
+    # tests/test_x86.py: > 15 min, and pytest's signal-based timeout is not delivered inside z3), so the reparse runs
+    # in a forked child under a wall-clock limit; a child that exceeds it is lost coverage ("recorder-timeout").
+    limit = float(os.environ.get("TESTREC_RP_LIMIT", "150"))
+    fh = _STATE.get("fh")
+    if fh is not None:
+        fh.flush()
+    pid = os.fork()
+    if pid == 0:
+        code = 0
+        try:
+            _reparse_body(last)
+        except BaseException:
+            code = 1
+        finally:
+            os._exit(code)
+    t0 = time.time()
+    done = False
+    try:
+        while time.time() - t0 < limit:
+            r, _st = os.waitpid(pid, os.WNOHANG)
+            if r == pid:
+                done = True
+                break
+            time.sleep(0.05)
+    finally:
+        if not done:
+            try:
+                os.kill(pid, 9)
+                os.waitpid(pid, 0)
+            except OSError:
+                pass
+            _emit({"kind": "reparse", "prog": "repo:" + _STATE["test"], "how": "final procedure of the test",
+                   "status": "recorder-timeout"})
+
+
+def _reparse_body(last):
     from .reparse import reparse, well_scoped
     from .replay_printenv import InjectivityMonitor
     from .export import make_unit, ExportError
@@ -282,7 +320,6 @@ def _reparse_last():
                     rec["unit"] = unit
             except ExportError as e:
                 rec["export_error"] = str(e)[:100]
-        _STATE["rp_budget"] = budget - 1
     except Exception as e:
         rec["status"] = "recorder-error"
         rec["msg"] = f"{type(e).__name__}: {str(e)[:200]}"
